@@ -46,7 +46,7 @@ class Prop(object):
     LEVEL = 'model_checking'
     TECHNIQUE = 'exhaustive exploration of all operation sequences up to the depth bound on the real code under an owned (recording / scripted) random source'
     RULE = ('every sequence up to the depth bound over the menu {passphrase-encrypt (2 messages x 3 ciphers), key-encrypt (RSA, Curve25519, P-256; repeated '
-            'identical arguments allowed), multi-recipient encrypt, protect (2 keys x 2 configurations)}, each run under the recording source and under two '
+            'identical arguments allowed), multi-recipient encrypt (keys + passphrase; two passphrases), protect (2 keys x 2 configurations)}, each run under the recording source and under two '
             'scripted sources. One state = one history (sequence of operations); a transition = one operation with all its random fields checked.')
     ASSUMPTIONS = ['PGPy draws session keys, prefixes, salts and IVs through os.urandom (interposed); randomness inside OpenSSL (PKCS#1 padding, ephemeral '
                    'ECDH keys) cannot be interposed: ephemeral points are only checked for pairwise distinctness, their unpredictability is not established',
@@ -65,6 +65,7 @@ class Prop(object):
             m.append(('key', 'm1', rc, 'AES256'))
         m.append(('key', 'm1', 'cv25519', 'CAST5'))
         m.append(('multi', 'm2', 'Camellia128'))
+        m.append(('multipass', 'm1', 'AES128'))
         m.append(('protect', 'kA', 'AES256', 'SHA256'))
         m.append(('protect', 'kA', 'CAST5', 'SHA1'))
         m.append(('protect', 'kB', 'AES128', 'SHA512'))
@@ -154,7 +155,7 @@ class Prop(object):
             for i, op in enumerate(ops):
                 src.op = i
                 r.transitions += 1
-                if op[0] in ('pass', 'key', 'multi'):
+                if op[0] in ('pass', 'key', 'multi', 'multipass'):
                     m = msgs[op[1]]
                     cipher = op[-1]
                     c = SymmetricKeyAlgorithm[cipher]
@@ -165,6 +166,12 @@ class Prop(object):
                     elif op[0] == 'key':
                         e = R.key_recipient(op[2])[1].encrypt(m, cipher=c)
                         recips = [op[2]]
+                    elif op[0] == 'multipass':
+                        # two passphrase recipients of one message: each session-key packet has its own salt
+                        sk = c.gen_key()
+                        e = m.encrypt(R.PASSPHRASE, cipher=c, sessionkey=sk, hash=HashAlgorithm.SHA256)
+                        e = e.encrypt(R.PASSPHRASE2, cipher=c, sessionkey=sk, hash=HashAlgorithm.SHA256)
+                        recips = ['pass', 'pass2']
                     else:
                         sk = c.gen_key()
                         e = R.key_recipient('cv25519')[1].encrypt(m, cipher=c, sessionkey=sk)
@@ -174,8 +181,8 @@ class Prop(object):
                     blob = bytes(e)
                     sks = set()
                     for rc in recips:
-                        if rc == 'pass':
-                            pt, info = rmsg.decrypt(blob, (), [R.PASSPHRASE.encode()])
+                        if rc in ('pass', 'pass2'):
+                            pt, info = rmsg.decrypt(blob, (), [(R.PASSPHRASE if rc == 'pass' else R.PASSPHRASE2).encode()])
                             claim('passphrase salt', info['s2k']['salt'], i, size=8)
                         else:
                             pt, info = rmsg.decrypt(blob, [R.key_recipient(rc)[2]], ())
